@@ -16,12 +16,68 @@ pub enum Rec {
     Exit { pid: u32, tid: u32, t: u64 },
     Comm { pid: u32, tid: u32, name: String, exec: bool, t: u64 },
     Mmap2 { pid: u32, tid: u32, addr: u64, len: u64, pgoff: u64, exec: bool, path: String, t: u64 },
+    /// PERF_RECORD_SWITCH (or SWITCH_CPU_WIDE) without the SWITCH_OUT misc bit
+    SwitchIn { pid: u32, tid: u32, t: u64 },
+    /// PERF_RECORD_SWITCH (or SWITCH_CPU_WIDE) with PERF_RECORD_MISC_SWITCH_OUT (and optionally SWITCH_OUT_PREEMPT)
+    SwitchOut { pid: u32, tid: u32, t: u64, preempt: bool },
+    /// SAMPLE of the second event `sched:sched_switch` (only written when `CsCfg::sched`)
+    Sched { pid: u32, tid: u32, t: u64, kernel: bool, ip: u64, chain: Vec<u64> },
+}
+
+/// Context-switch related settings of a recording (`cfg … cs:<letters>:<period>`): which of the attr bits /
+/// events `EventInterpretation::divine_from_attrs` looks at are present.
+#[derive(Clone, Debug, PartialEq, Default)]
+pub struct CsCfg {
+    /// `attr.context_switch = 1` on the main event (letter `c`): `OffCpuIndicator::ContextSwitches`
+    pub ctx: bool,
+    /// a second event named `sched:sched_switch` exists (letter `s`); without `ctx`: `SchedSwitchAndSamples`
+    pub sched: bool,
+    /// the main event is a hardware event (letter `h`): sampling is not time based (interval 1 ms, weight 0)
+    pub hw: bool,
+    /// `attr.freq = 1` (letter `f`): `period` is a frequency in Hz
+    pub freq: bool,
+    /// switch records are written as PERF_RECORD_SWITCH_CPU_WIDE (letter `w`)
+    pub wide: bool,
+    /// `attr.sample_period` / `attr.sample_freq` of the main event
+    pub period: u64,
+}
+
+impl CsCfg {
+    pub fn word(&self) -> String {
+        let mut l = String::new();
+        for (b, c) in [(self.ctx, 'c'), (self.sched, 's'), (self.hw, 'h'), (self.freq, 'f'), (self.wide, 'w')] {
+            if b {
+                l.push(c);
+            }
+        }
+        if l.is_empty() {
+            l.push('-');
+        }
+        format!("cs:{l}:{}", self.period)
+    }
+    pub fn parse(letters: &str, period: &str) -> Option<CsCfg> {
+        Some(CsCfg {
+            ctx: letters.contains('c'),
+            sched: letters.contains('s'),
+            hw: letters.contains('h'),
+            freq: letters.contains('f'),
+            wide: letters.contains('w'),
+            period: period.parse().ok()?,
+        })
+    }
 }
 
 impl Rec {
     pub fn time(&self) -> u64 {
         match self {
-            Rec::Sample { t, .. } | Rec::Fork { t, .. } | Rec::Exit { t, .. } | Rec::Comm { t, .. } | Rec::Mmap2 { t, .. } => *t,
+            Rec::Sample { t, .. }
+            | Rec::Fork { t, .. }
+            | Rec::Exit { t, .. }
+            | Rec::Comm { t, .. }
+            | Rec::Mmap2 { t, .. }
+            | Rec::SwitchIn { t, .. }
+            | Rec::SwitchOut { t, .. }
+            | Rec::Sched { t, .. } => *t,
         }
     }
 }
@@ -40,6 +96,9 @@ pub struct History {
     pub perf_maps: Vec<(u32, PerfMapLine)>,
     /// `--per-cpu-threads` with this many CPUs (0 = option off); the CPU of a sample is `cpu_of`
     pub ncpu: u32,
+    /// context-switch settings of the recording (None = the attr the older families use: cpu-clock, period
+    /// 1 000 000, no context_switch bit, one event)
+    pub cs: Option<CsCfg>,
 }
 
 /// One line of a perf map file: a well-formed `<hexaddr> <hexlen> <name>` line, or arbitrary text.
@@ -105,6 +164,9 @@ impl History {
         if self.ncpu != 0 {
             let _ = write!(cfg, " percpu:{}", self.ncpu);
         }
+        if let Some(cs) = &self.cs {
+            let _ = write!(cfg, " {}", cs.word());
+        }
         let mut v = vec![cfg];
         for (pid, l) in &self.perf_maps {
             v.push(match l {
@@ -127,6 +189,16 @@ impl History {
                 Rec::Comm { pid, tid, name, exec, t } => format!("comm {pid} {tid} {} {t} {}", *exec as u8, hex_str(name)),
                 Rec::Mmap2 { pid, tid, addr, len, pgoff, exec, path, t } => {
                     format!("mmap2 {pid} {tid} {addr} {len} {pgoff} {} {t} {}", *exec as u8, hex_str(path))
+                }
+                Rec::SwitchIn { pid, tid, t } => format!("switchin {pid} {tid} {t}"),
+                Rec::SwitchOut { pid, tid, t, preempt } => format!("switchout {pid} {tid} {t}{}", if *preempt { " preempt" } else { "" }),
+                Rec::Sched { pid, tid, t, kernel, ip, chain } => {
+                    let c = if chain.is_empty() {
+                        "-".to_string()
+                    } else {
+                        chain.iter().map(|a| a.to_string()).collect::<Vec<_>>().join(",")
+                    };
+                    format!("sched {pid} {tid} {t} {} {ip} {c}", if *kernel { "k" } else { "u" })
                 }
             });
         }
@@ -158,6 +230,9 @@ impl History {
                         if parts.len() == 2 && parts[0] == "percpu" {
                             h.ncpu = parts[1].parse().ok()?;
                         }
+                        if parts.len() == 3 && parts[0] == "cs" {
+                            h.cs = Some(CsCfg::parse(parts[1], parts[2])?);
+                        }
                     }
                 }
                 Some("perfmap") => h.perf_maps.push((n(1)? as u32, PerfMapLine::Fn { addr: n(2)?, len: n(3)?, name: str_hex(w.get(4)?) })),
@@ -188,8 +263,26 @@ impl History {
                     t: n(7)?,
                     path: str_hex(w.get(8)?),
                 }),
+                Some("switchin") => h.recs.push(Rec::SwitchIn { pid: n(1)? as u32, tid: n(2)? as u32, t: n(3)? }),
+                Some("switchout") => h.recs.push(Rec::SwitchOut { pid: n(1)? as u32, tid: n(2)? as u32, t: n(3)?, preempt: w.get(4) == Some(&"preempt") }),
+                Some("sched") => h.recs.push(Rec::Sched {
+                    pid: n(1)? as u32,
+                    tid: n(2)? as u32,
+                    t: n(3)?,
+                    kernel: w.get(4) == Some(&"k"),
+                    ip: n(5)?,
+                    chain: if w.get(6) == Some(&"-") {
+                        vec![]
+                    } else {
+                        w.get(6)?.split(',').filter_map(|s| s.parse().ok()).collect()
+                    },
+                }),
                 _ => return None,
             }
+        }
+        // sched_switch samples can only be written into a recording that has that event
+        if h.recs.iter().any(|r| matches!(r, Rec::Sched { .. })) && !h.cs.as_ref().map(|c| c.sched).unwrap_or(false) {
+            return None;
         }
         Some(h)
     }
@@ -204,6 +297,10 @@ const PERF_RECORD_EXIT: u32 = 4;
 const PERF_RECORD_FORK: u32 = 7;
 const PERF_RECORD_SAMPLE: u32 = 9;
 const PERF_RECORD_FINISHED_ROUND: u32 = 68;
+const PERF_RECORD_SWITCH: u32 = 14;
+const PERF_RECORD_SWITCH_CPU_WIDE: u32 = 15;
+const PERF_RECORD_MISC_SWITCH_OUT: u16 = 1 << 13;
+const PERF_RECORD_MISC_SWITCH_OUT_PREEMPT: u16 = 1 << 14;
 
 fn rec_bytes(typ: u32, misc: u16, body: &[u8]) -> Vec<u8> {
     let size = 8 + body.len();
@@ -223,12 +320,28 @@ fn pad8(mut b: Vec<u8>) -> Vec<u8> {
     b
 }
 
-fn sample_id(pid: u32, tid: u32, t: u64) -> Vec<u8> {
-    // trailer with sample_id_all for sample_type TID|TIME|CPU
+/// How records are laid out: number of CPUs, and whether every record carries the event id (needed as soon
+/// as the file has two events: `sample_type` gains PERF_SAMPLE_ID on both).
+#[derive(Clone, Copy, Debug, Default)]
+pub struct Enc {
+    pub ncpu: u32,
+    pub with_id: bool,
+    pub cpu_wide: bool,
+}
+
+const ID_MAIN: u64 = 1;
+const ID_SCHED: u64 = 2;
+
+fn sample_id(e: Enc, pid: u32, tid: u32, t: u64) -> Vec<u8> {
+    // trailer with sample_id_all for sample_type TID|TIME|[ID|]CPU
     let mut v = Vec::new();
     v.extend_from_slice(&pid.to_le_bytes());
     v.extend_from_slice(&tid.to_le_bytes());
     v.extend_from_slice(&t.to_le_bytes());
+    if e.with_id {
+        v.extend_from_slice(&ID_MAIN.to_le_bytes());
+    }
+    // only switch records of context-switch recordings are placed on a CPU other than 0 (see `encode_switch`)
     v.extend_from_slice(&0u32.to_le_bytes());
     v.extend_from_slice(&0u32.to_le_bytes());
     v
@@ -240,21 +353,53 @@ pub fn encode_record(r: &Rec) -> Vec<u8> {
 
 /// `ncpu` = number of CPUs of the recording (0: every sample on CPU 0)
 pub fn encode_record_cpu(r: &Rec, ncpu: u32) -> Vec<u8> {
+    encode_record_enc(r, Enc { ncpu, with_id: false, cpu_wide: false })
+}
+
+fn encode_sample(e: Enc, id: u64, pid: u32, tid: u32, t: u64, kernel: bool, period: u64, ip: u64, chain: &[u64]) -> Vec<u8> {
+    let mut b = Vec::new();
+    b.extend_from_slice(&ip.to_le_bytes());
+    b.extend_from_slice(&pid.to_le_bytes());
+    b.extend_from_slice(&tid.to_le_bytes());
+    b.extend_from_slice(&t.to_le_bytes());
+    if e.with_id {
+        b.extend_from_slice(&id.to_le_bytes());
+    }
+    b.extend_from_slice(&cpu_of(e.ncpu, t).to_le_bytes()); // cpu
+    b.extend_from_slice(&0u32.to_le_bytes());
+    b.extend_from_slice(&period.to_le_bytes());
+    b.extend_from_slice(&(chain.len() as u64).to_le_bytes());
+    for a in chain {
+        b.extend_from_slice(&a.to_le_bytes());
+    }
+    rec_bytes(PERF_RECORD_SAMPLE, if kernel { 1 } else { 2 }, &b)
+}
+
+fn encode_switch(e: Enc, pid: u32, tid: u32, t: u64, misc: u16) -> Vec<u8> {
+    let mut b = Vec::new();
+    if e.cpu_wide {
+        // next_prev_pid / next_prev_tid (not read by the converter)
+        b.extend_from_slice(&7u32.to_le_bytes());
+        b.extend_from_slice(&7u32.to_le_bytes());
+    }
+    b.extend_from_slice(&pid.to_le_bytes());
+    b.extend_from_slice(&tid.to_le_bytes());
+    b.extend_from_slice(&t.to_le_bytes());
+    if e.with_id {
+        b.extend_from_slice(&ID_MAIN.to_le_bytes());
+    }
+    b.extend_from_slice(&cpu_of(e.ncpu, t).to_le_bytes());
+    b.extend_from_slice(&0u32.to_le_bytes());
+    rec_bytes(if e.cpu_wide { PERF_RECORD_SWITCH_CPU_WIDE } else { PERF_RECORD_SWITCH }, misc, &b)
+}
+
+pub fn encode_record_enc(r: &Rec, e: Enc) -> Vec<u8> {
     match r {
-        Rec::Sample { pid, tid, t, kernel, period, ip, chain } => {
-            let mut b = Vec::new();
-            b.extend_from_slice(&ip.to_le_bytes());
-            b.extend_from_slice(&pid.to_le_bytes());
-            b.extend_from_slice(&tid.to_le_bytes());
-            b.extend_from_slice(&t.to_le_bytes());
-            b.extend_from_slice(&cpu_of(ncpu, *t).to_le_bytes()); // cpu
-            b.extend_from_slice(&0u32.to_le_bytes());
-            b.extend_from_slice(&period.to_le_bytes());
-            b.extend_from_slice(&(chain.len() as u64).to_le_bytes());
-            for a in chain {
-                b.extend_from_slice(&a.to_le_bytes());
-            }
-            rec_bytes(PERF_RECORD_SAMPLE, if *kernel { 1 } else { 2 }, &b)
+        Rec::Sample { pid, tid, t, kernel, period, ip, chain } => encode_sample(e, ID_MAIN, *pid, *tid, *t, *kernel, *period, *ip, chain),
+        Rec::Sched { pid, tid, t, kernel, ip, chain } => encode_sample(e, ID_SCHED, *pid, *tid, *t, *kernel, 1, *ip, chain),
+        Rec::SwitchIn { pid, tid, t } => encode_switch(e, *pid, *tid, *t, 0),
+        Rec::SwitchOut { pid, tid, t, preempt } => {
+            encode_switch(e, *pid, *tid, *t, PERF_RECORD_MISC_SWITCH_OUT | if *preempt { PERF_RECORD_MISC_SWITCH_OUT_PREEMPT } else { 0 })
         }
         Rec::Fork { pid, tid, ppid, ptid, t } => {
             let mut b = Vec::new();
@@ -263,7 +408,7 @@ pub fn encode_record_cpu(r: &Rec, ncpu: u32) -> Vec<u8> {
             b.extend_from_slice(&tid.to_le_bytes());
             b.extend_from_slice(&ptid.to_le_bytes());
             b.extend_from_slice(&t.to_le_bytes());
-            b.extend_from_slice(&sample_id(*pid, *tid, *t));
+            b.extend_from_slice(&sample_id(e, *pid, *tid, *t));
             rec_bytes(PERF_RECORD_FORK, 0, &b)
         }
         Rec::Exit { pid, tid, t } => {
@@ -273,7 +418,7 @@ pub fn encode_record_cpu(r: &Rec, ncpu: u32) -> Vec<u8> {
             b.extend_from_slice(&tid.to_le_bytes());
             b.extend_from_slice(&tid.to_le_bytes()); // ptid
             b.extend_from_slice(&t.to_le_bytes());
-            b.extend_from_slice(&sample_id(*pid, *tid, *t));
+            b.extend_from_slice(&sample_id(e, *pid, *tid, *t));
             rec_bytes(PERF_RECORD_EXIT, 0, &b)
         }
         Rec::Comm { pid, tid, name, exec, t } => {
@@ -283,7 +428,7 @@ pub fn encode_record_cpu(r: &Rec, ncpu: u32) -> Vec<u8> {
             let mut n = name.as_bytes().to_vec();
             n.push(0);
             b.extend_from_slice(&pad8(n));
-            b.extend_from_slice(&sample_id(*pid, *tid, *t));
+            b.extend_from_slice(&sample_id(e, *pid, *tid, *t));
             rec_bytes(PERF_RECORD_COMM, if *exec { 1 << 13 } else { 0 }, &b)
         }
         Rec::Mmap2 { pid, tid, addr, len, pgoff, exec, path, t } => {
@@ -303,26 +448,53 @@ pub fn encode_record_cpu(r: &Rec, ncpu: u32) -> Vec<u8> {
             let mut p = path.as_bytes().to_vec();
             p.push(0);
             b.extend_from_slice(&pad8(p));
-            b.extend_from_slice(&sample_id(*pid, *tid, *t));
+            b.extend_from_slice(&sample_id(e, *pid, *tid, *t));
             rec_bytes(PERF_RECORD_MMAP2, 2, &b)
         }
     }
 }
 
-fn attr_bytes() -> Vec<u8> {
+/// `perf_event_attr` (128 bytes). `which` = 0: the main event, 1: the `sched:sched_switch` tracepoint.
+fn attr_bytes(cs: Option<&CsCfg>, which: u32) -> Vec<u8> {
     const S_IP: u64 = 1;
     const S_TID: u64 = 2;
     const S_TIME: u64 = 4;
     const S_CALLCHAIN: u64 = 32;
+    const S_ID: u64 = 64;
     const S_CPU: u64 = 128;
     const S_PERIOD: u64 = 256;
-    let sample_type = S_IP | S_TID | S_TIME | S_CPU | S_PERIOD | S_CALLCHAIN;
-    let flags: u64 = (1 << 18) | (1 << 8) | (1 << 9) | (1 << 13) | (1 << 23) | (1 << 24);
+    let mut sample_type = S_IP | S_TID | S_TIME | S_CPU | S_PERIOD | S_CALLCHAIN;
+    let mut flags: u64 = (1 << 18) | (1 << 8) | (1 << 9) | (1 << 13) | (1 << 23) | (1 << 24);
+    let mut typ = 1u32; // software
+    let mut config = 0u64; // cpu-clock
+    let mut period = 1_000_000u64;
+    if let Some(cs) = cs {
+        if cs.sched {
+            sample_type |= S_ID;
+        }
+        if which == 0 {
+            period = cs.period;
+            if cs.ctx {
+                flags |= 1 << 26; // context_switch
+            }
+            if cs.freq {
+                flags |= 1 << 10; // freq
+            }
+            if cs.hw {
+                typ = 0; // hardware, config 0 = cpu-cycles
+            }
+        } else {
+            typ = 2; // tracepoint
+            config = 316;
+            period = 1;
+            flags = 1 << 18;
+        }
+    }
     let mut v = Vec::new();
-    v.extend_from_slice(&1u32.to_le_bytes()); // type = software
+    v.extend_from_slice(&typ.to_le_bytes());
     v.extend_from_slice(&128u32.to_le_bytes()); // size
-    v.extend_from_slice(&0u64.to_le_bytes()); // config = cpu-clock
-    v.extend_from_slice(&1_000_000u64.to_le_bytes()); // sample_period
+    v.extend_from_slice(&config.to_le_bytes());
+    v.extend_from_slice(&period.to_le_bytes()); // sample_period / sample_freq
     v.extend_from_slice(&sample_type.to_le_bytes());
     v.extend_from_slice(&0u64.to_le_bytes()); // read_format
     v.extend_from_slice(&flags.to_le_bytes());
@@ -332,10 +504,30 @@ fn attr_bytes() -> Vec<u8> {
     v
 }
 
+/// HEADER_EVENT_DESC: names and ids of the two events (only written for recordings with a second event)
+fn event_desc_bytes(cs: &CsCfg) -> Vec<u8> {
+    let mut v = Vec::new();
+    v.extend_from_slice(&2u32.to_le_bytes());
+    v.extend_from_slice(&128u32.to_le_bytes());
+    for (which, name, id) in [(0u32, "cpu-clock", ID_MAIN), (1, "sched:sched_switch", ID_SCHED)] {
+        v.extend_from_slice(&attr_bytes(Some(cs), which));
+        v.extend_from_slice(&1u32.to_le_bytes()); // nr_ids
+        let mut n = name.as_bytes().to_vec();
+        n.push(0);
+        let n = pad8(n);
+        v.extend_from_slice(&(n.len() as u32).to_le_bytes());
+        v.extend_from_slice(&n);
+        v.extend_from_slice(&id.to_le_bytes());
+    }
+    v
+}
+
 /// Layout of the records in the file: consecutive slices of `recs` form rounds; inside a round the
 /// records are interleaved at random, keeping the relative order of records with equal timestamps, so
 /// that the reader's sorter (key = (timestamp, file offset)) emits exactly `recs` in order.
 pub fn write_perf_data(h: &History, path: &Path, layout_rng: &mut Rng) {
+    let two_events = h.cs.as_ref().map(|c| c.sched).unwrap_or(false);
+    let enc = Enc { ncpu: h.ncpu, with_id: two_events, cpu_wide: h.cs.as_ref().map(|c| c.wide).unwrap_or(false) };
     let mut data = Vec::new();
     let n = h.recs.len();
     let mut i = 0;
@@ -361,7 +553,7 @@ pub fn write_perf_data(h: &History, path: &Path, layout_rng: &mut Rng) {
         while remaining > 0 {
             let live: Vec<usize> = (0..groups.len()).filter(|&g| cursors[g] < groups[g].len()).collect();
             let g = if shuffle { live[layout_rng.below(live.len() as u64) as usize] } else { live[0] };
-            data.extend_from_slice(&encode_record_cpu(groups[g][cursors[g]], h.ncpu));
+            data.extend_from_slice(&encode_record_enc(groups[g][cursors[g]], enc));
             cursors[g] += 1;
             remaining -= 1;
         }
@@ -370,27 +562,41 @@ pub fn write_perf_data(h: &History, path: &Path, layout_rng: &mut Rng) {
     }
 
     let header_size: u64 = 104;
-    let mut attr_section = attr_bytes();
+    let mut attr_section = attr_bytes(h.cs.as_ref(), 0);
     attr_section.extend_from_slice(&0u64.to_le_bytes()); // ids offset
     attr_section.extend_from_slice(&0u64.to_le_bytes()); // ids size
+    let attr_entry_size = attr_section.len() as u64;
+    if two_events {
+        attr_section.extend_from_slice(&attr_bytes(h.cs.as_ref(), 1));
+        attr_section.extend_from_slice(&0u64.to_le_bytes());
+        attr_section.extend_from_slice(&0u64.to_le_bytes());
+    }
     let attr_off = header_size;
     let data_off = attr_off + attr_section.len() as u64;
     let mut feat_bits = [0u64; 4];
-    let mut feat_data = Vec::new();
+    // feature sections in the order of their bit numbers
+    let mut feats: Vec<Vec<u8>> = Vec::new();
+    if two_events {
+        const FEATURE_EVENT_DESC: u64 = 12;
+        feat_bits[0] |= 1 << FEATURE_EVENT_DESC;
+        feats.push(event_desc_bytes(h.cs.as_ref().unwrap()));
+    }
     if h.ref_time != 0 {
         const FEATURE_SAMPLE_TIME: u64 = 21;
         feat_bits[0] |= 1 << FEATURE_SAMPLE_TIME;
         let last = h.recs.iter().map(|r| r.time()).max().unwrap_or(h.ref_time).max(h.ref_time);
+        let mut feat_data = Vec::new();
         feat_data.extend_from_slice(&h.ref_time.to_le_bytes());
         feat_data.extend_from_slice(&last.to_le_bytes());
+        feats.push(feat_data);
     }
-    let nfeat = if h.ref_time != 0 { 1u64 } else { 0 };
+    let nfeat = feats.len() as u64;
     let feat_table_off = data_off + data.len() as u64;
-    let feat_payload_off = feat_table_off + 16 * nfeat;
+    let mut feat_payload_off = feat_table_off + 16 * nfeat;
     let mut out = Vec::new();
     out.extend_from_slice(b"PERFILE2");
     out.extend_from_slice(&header_size.to_le_bytes());
-    out.extend_from_slice(&(attr_section.len() as u64).to_le_bytes()); // attr_size
+    out.extend_from_slice(&attr_entry_size.to_le_bytes()); // attr_size
     out.extend_from_slice(&attr_off.to_le_bytes());
     out.extend_from_slice(&(attr_section.len() as u64).to_le_bytes());
     out.extend_from_slice(&data_off.to_le_bytes());
@@ -403,10 +609,13 @@ pub fn write_perf_data(h: &History, path: &Path, layout_rng: &mut Rng) {
     assert_eq!(out.len(), 104);
     out.extend_from_slice(&attr_section);
     out.extend_from_slice(&data);
-    if nfeat == 1 {
+    for f in &feats {
         out.extend_from_slice(&feat_payload_off.to_le_bytes());
-        out.extend_from_slice(&(feat_data.len() as u64).to_le_bytes());
-        out.extend_from_slice(&feat_data);
+        out.extend_from_slice(&(f.len() as u64).to_le_bytes());
+        feat_payload_off += f.len() as u64;
+    }
+    for f in &feats {
+        out.extend_from_slice(f);
     }
     std::fs::write(path, out).expect("write perf.data");
 }
@@ -505,7 +714,13 @@ impl PidSubst {
         let mut out = h.clone();
         for r in out.recs.iter_mut() {
             match r {
-                Rec::Sample { pid, tid, .. } | Rec::Exit { pid, tid, .. } | Rec::Comm { pid, tid, .. } | Rec::Mmap2 { pid, tid, .. } => {
+                Rec::Sample { pid, tid, .. }
+                | Rec::Exit { pid, tid, .. }
+                | Rec::Comm { pid, tid, .. }
+                | Rec::Mmap2 { pid, tid, .. }
+                | Rec::SwitchIn { pid, tid, .. }
+                | Rec::SwitchOut { pid, tid, .. }
+                | Rec::Sched { pid, tid, .. } => {
                     *pid = f(pid);
                     *tid = f(tid);
                 }
@@ -724,6 +939,18 @@ pub enum Proj {
     C02,
     C14,
     Full,
+    /// context-switch families (C12 `conv` mode, C01): `s <t> <on|off> <weight> <cpuDelta µs>`
+    Cs,
+}
+
+/// Call-chain addresses of generated `sched:sched_switch` samples lie in this range and nowhere else, so that
+/// an output sample carrying the stored off-CPU stack can be told from an on-CPU sample (an off-CPU stack
+/// without user frames is empty; the stack of an on-CPU sample never is).
+pub const OFF_STACK_BASE: u64 = 0x0ff0_0000;
+pub const OFF_STACK_END: u64 = 0x0ff1_0000;
+
+pub fn is_off_stack(fs: &[Frame]) -> bool {
+    fs.iter().all(|f| matches!(f, Frame::Raw(a) if (OFF_STACK_BASE..OFF_STACK_END).contains(a)))
 }
 
 pub fn show_frame(f: &Frame) -> String {
@@ -773,7 +1000,11 @@ pub fn render(proj: Proj, views: &[View]) -> Vec<String> {
     let mut out = Vec::new();
     for v in vs {
         let mut samples: Vec<&OutSample> = v.samples.iter().collect();
-        samples.sort_by_key(|o| format!("{} {}", 1_000_000_000_000_000_000_000u128 + o.t as u128, show_frames(&o.frames)));
+        if proj == Proj::Cs {
+            samples.sort_by_key(|o| (o.t, !is_off_stack(&o.frames), o.weight, o.cpu));
+        } else {
+            samples.sort_by_key(|o| format!("{} {}", 1_000_000_000_000_000_000_000u128 + o.t as u128, show_frames(&o.frames)));
+        }
         let full_head = format!(
             "thread {} {} main={} name={} pname={} start={} end={} pstart={} pend={}",
             v.pid,
@@ -800,6 +1031,7 @@ pub fn render(proj: Proj, views: &[View]) -> Vec<String> {
                 Proj::C14 => write!(l, "s {} {}", o.t, show_frames_c14(&o.frames)).unwrap(),
                 // threadCPUDelta is serialized in µs: compare period / 1000
                 Proj::Full => write!(l, "s {} {} {} {}", o.t, o.weight, o.cpu, show_frames(&o.frames)).unwrap(),
+                Proj::Cs => write!(l, "s {} {} {} {}", o.t, if is_off_stack(&o.frames) { "off" } else { "on" }, o.weight, o.cpu).unwrap(),
             }
             out.push(l);
         }
@@ -837,6 +1069,10 @@ pub fn count_history(h: &History, stats: &mut Stats) {
                 Rec::Comm { exec: true, .. } => "rec_exec",
                 Rec::Comm { .. } => "rec_comm",
                 Rec::Mmap2 { .. } => "rec_mmap2",
+                Rec::SwitchIn { .. } => "rec_switch_in",
+                Rec::SwitchOut { preempt: true, .. } => "rec_switch_out_preempt",
+                Rec::SwitchOut { .. } => "rec_switch_out",
+                Rec::Sched { .. } => "rec_sched_switch",
             })
             .or_insert(0) += 1;
     }
@@ -1374,6 +1610,201 @@ pub fn gen_history(rng: &mut Rng, shape: &Shape) -> History {
         (Some(t), 0..=3) => t,
         (Some(t), 4) => t.saturating_sub(1000 * rng.below(5000)).max(1),
         (None, 0..=2) => base_t,
+        _ => 0,
+    };
+    h
+}
+
+// ---------------------------------------------------------------------------------------------
+// context-switch histories (C12 `conv` mode, C01)
+
+/// Shape of a generated context-switch history.
+#[derive(Clone, Debug)]
+pub struct CsShape {
+    /// upper bound on the number of generated steps
+    pub max_len: u64,
+    /// EXIT / EXEC / FORK records (thread incarnations end and restart)
+    pub lifecycle: bool,
+    /// allow `--reuse-threads`
+    pub allow_reuse: bool,
+}
+
+pub const CS_INTERVALS: [u64; 9] = [1_000, 2_000, 3_000, 10_000, 250_000, 1_000_000, 1, 7, 999];
+
+/// a `sched:sched_switch` call chain: user frames inside the off-CPU marker range, sometimes kernel frames in
+/// front (removed by the converter), sometimes no user frame at all (the stored stack is empty)
+fn gen_off_chain(rng: &mut Rng) -> (bool, u64, Vec<u64>) {
+    let a = |rng: &mut Rng| OFF_STACK_BASE + 0x10 + rng.below(0xff00);
+    match rng.below(6) {
+        0 => (false, a(rng), vec![]),
+        1 => (true, 0xffff_ffff_8100_0000 + rng.below(0x1000), vec![CTX_KERNEL, 0xffff_ffff_8100_0000 + rng.below(0x1000)]),
+        2 => {
+            let mut c = vec![CTX_KERNEL, 0xffff_ffff_8100_0000 + rng.below(0x1000), CTX_USER];
+            for _ in 0..rng.range(1, 3) {
+                c.push(a(rng));
+            }
+            (true, 0xffff_ffff_8100_0000, c)
+        }
+        _ => {
+            let mut c = vec![CTX_USER];
+            for _ in 0..rng.range(1, 4) {
+                c.push(a(rng));
+            }
+            (false, a(rng), c)
+        }
+    }
+}
+
+/// Record histories with context switches. Threads run, get sampled, are switched out (mostly announced by a
+/// `sched_switch` sample when the recording has that event), sleep for less than / exactly / several / thousands
+/// of sampling intervals and wake up through a switch-in or directly through a sample; plus the irregular
+/// shapes: repeated switch-out, sample before the switch-in, switch-in while running, sched_switch without
+/// switch-out, duplicate samples, idle-thread (tid 0) records, threads first seen through any record kind,
+/// and (with `lifecycle`) EXIT / EXEC / FORK in between.
+pub fn gen_cs_history(rng: &mut Rng, shape: &CsShape) -> History {
+    let interval = *rng.pick(&CS_INTERVALS);
+    let mode = rng.below(20);
+    let cs = CsCfg {
+        ctx: mode != 0 && mode != 1,
+        sched: mode < 14,
+        hw: mode == 2,
+        freq: mode == 3,
+        wide: rng.chance(1, 3),
+        period: interval,
+    };
+    // mode 3: frequency such that 1e9 / f is the interval (or close: integer division)
+    let (cs, interval) = if cs.freq {
+        let f = *rng.pick(&[1_000u64, 4_000, 999, 1_000_000, 3]);
+        (CsCfg { period: f, ..cs }, 1_000_000_000 / f)
+    } else if cs.hw {
+        (cs, 1_000_000)
+    } else {
+        (cs, interval)
+    };
+    let mut h = History { reuse: shape.allow_reuse && rng.chance(1, 8), cs: Some(cs.clone()), ..Default::default() };
+    // whole microseconds in most histories (cpu deltas are stored in µs)
+    let grid: u64 = if rng.chance(3, 4) { 1000 } else { 1 };
+    let base_t = 1_000_000 * rng.range(1, 50);
+    let mut t = base_t;
+    let threads: Vec<(u32, u32)> = vec![(100, 100), (100, 101), (100, 102), (200, 200), (200, 205)];
+    let nthreads = rng.range(1, threads.len() as u64) as usize;
+    // what the generator believes a thread is doing (only steers the choice of the next record)
+    let mut running: BTreeMap<(u32, u32), bool> = BTreeMap::new();
+    if rng.chance(1, 2) {
+        h.recs.push(Rec::Comm { pid: 100, tid: 100, name: "app".to_string(), exec: false, t });
+    }
+    let len = if rng.chance(1, 8) { rng.range(shape.max_len / 2, shape.max_len) } else { rng.range(3, (shape.max_len / 3).max(8)) };
+    let unit = (interval / grid).max(1);
+    for _ in 0..len {
+        let step = match rng.below(12) {
+            0 => 0,
+            1 => 1,
+            2 => rng.range(1, 5),
+            3 => unit,
+            4 => unit - 1,
+            5 => unit + 1,
+            6 => unit * rng.range(2, 6),
+            7 => unit * rng.range(2, 6) + rng.below(unit),
+            8 => unit / 2,
+            9 if rng.chance(1, 6) => unit * 5000 + rng.below(unit),
+            _ => rng.below(unit * 2 + 1),
+        };
+        t += step * grid;
+        let (pid, tid) = threads[rng.below(nthreads as u64) as usize];
+        let is_running = running.get(&(pid, tid)).copied().unwrap_or(false);
+        let (kernel, ip) = (rng.chance(1, 8), 0x1000 + rng.below(0x100));
+        let sample = |rng: &mut Rng| {
+            let chain = if rng.chance(1, 2) { vec![] } else { vec![CTX_USER, 0x1000 + rng.below(0x100), 0x1000 + rng.below(0x100)] };
+            Rec::Sample { pid, tid, t, kernel, period: *rng.pick(&[1_000_000u64, 250_000, 0]), ip, chain }
+        };
+        let choice = rng.below(100);
+        if shape.lifecycle && choice >= 94 {
+            match rng.below(4) {
+                0 if tid != pid => h.recs.push(Rec::Exit { pid, tid, t }),
+                1 => h.recs.push(Rec::Comm { pid, tid: pid, name: "execd".to_string(), exec: true, t }),
+                2 if tid != pid => h.recs.push(Rec::Fork { pid, tid, ppid: pid, ptid: pid, t }),
+                _ => h.recs.push(Rec::Comm { pid, tid, name: rng.pick(&NAMES).to_string(), exec: false, t }),
+            }
+            running.remove(&(pid, tid));
+            continue;
+        }
+        if choice >= 91 {
+            // the idle thread: ignored by the sample path and by switch records
+            match rng.below(3) {
+                0 => h.recs.push(Rec::SwitchIn { pid: 0, tid: 0, t }),
+                1 => h.recs.push(Rec::SwitchOut { pid: 0, tid: 0, t, preempt: false }),
+                _ => h.recs.push(Rec::Sample { pid, tid: 0, t, kernel, period: 1, ip, chain: vec![] }),
+            }
+            continue;
+        }
+        if is_running {
+            match choice {
+                0..=39 => {
+                    let r = sample(rng);
+                    h.recs.push(r.clone());
+                    if rng.chance(1, 10) {
+                        h.recs.push(r);
+                    }
+                }
+                40..=74 => {
+                    // going to sleep: sched_switch sample (when the event exists), then the switch-out
+                    if cs.sched && rng.chance(5, 6) {
+                        let (k, ip, chain) = gen_off_chain(rng);
+                        h.recs.push(Rec::Sched { pid, tid, t, kernel: k, ip, chain });
+                    }
+                    if cs.ctx || rng.chance(1, 3) {
+                        h.recs.push(Rec::SwitchOut { pid, tid, t, preempt: rng.chance(1, 3) });
+                    }
+                    running.insert((pid, tid), false);
+                }
+                75..=82 => h.recs.push(Rec::SwitchIn { pid, tid, t }),
+                83..=86 if cs.sched => {
+                    // sched_switch sample not followed by a switch-out
+                    let (k, ip, chain) = gen_off_chain(rng);
+                    h.recs.push(Rec::Sched { pid, tid, t, kernel: k, ip, chain });
+                }
+                _ => {
+                    h.recs.push(Rec::SwitchOut { pid, tid, t, preempt: false });
+                    running.insert((pid, tid), false);
+                }
+            }
+        } else {
+            match choice {
+                0..=49 => {
+                    if cs.ctx || rng.chance(1, 3) {
+                        h.recs.push(Rec::SwitchIn { pid, tid, t });
+                    } else {
+                        let r = sample(rng);
+                        h.recs.push(r);
+                    }
+                    running.insert((pid, tid), true);
+                }
+                50..=64 => {
+                    // the sample arrives before the switch-in
+                    let r = sample(rng);
+                    h.recs.push(r);
+                    if rng.chance(1, 2) {
+                        h.recs.push(Rec::SwitchIn { pid, tid, t: t + 0 });
+                    }
+                    running.insert((pid, tid), true);
+                }
+                65..=76 => h.recs.push(Rec::SwitchOut { pid, tid, t, preempt: rng.chance(1, 2) }),
+                77..=84 if cs.sched => {
+                    let (k, ip, chain) = gen_off_chain(rng);
+                    h.recs.push(Rec::Sched { pid, tid, t, kernel: k, ip, chain });
+                }
+                _ => {
+                    h.recs.push(Rec::SwitchIn { pid, tid, t });
+                    running.insert((pid, tid), true);
+                }
+            }
+        }
+    }
+    let first_sample = h.recs.iter().find_map(|r| if let Rec::Sample { t, .. } = r { Some(*t) } else { None });
+    h.ref_time = match (first_sample, rng.below(6)) {
+        (_, 0..=2) => base_t,
+        (Some(t), 3) => t,
+        (_, 4) => base_t - 1000 * rng.below(900),
         _ => 0,
     };
     h
